@@ -401,6 +401,26 @@ func (st *State) applyContract(fr *Frame, in ssa.CallInstruction, ct *Contract, 
 	} else if !ct.HasMods && !ct.Trusted {
 		// no frame given: nothing is modified is the default for pure helpers
 	}
+	// the callee may have allocated: its results (and whatever it stored) may refer to objects above the caller's
+	// allocation watermark, so the watermark moves on every contract call, whether or not something was havocked
+	{
+		nb := st.fresh("A", SInt)
+		st.assume(Ge(nb, st.watermark()))
+		st.allocB = nb
+		st.allocOff = 0
+	}
+	// vacuity probe around the assumed postconditions (a few paths per call site, judged pairwise in the report):
+	// a feasible path must not become infeasible by assuming what the callee ensures
+	probeKey := "call:" + site
+	probe := false
+	if u.invCover == nil {
+		u.invCover = map[string]int{}
+	}
+	if !env.assume && u.invCover[probeKey] < 3 && len(ct.Ensures)+len(ct.GhostEns) > 0 {
+		u.invCover[probeKey]++
+		probe = true
+		st.e.addObligation(st, u, "cover", fmt.Sprintf("before-%s-%d", ct.Func, u.invCover[probeKey]), site, TFalse, u.c.Props, "call", true)
+	}
 	res := st.freshResult(results)
 	var resVals []SVal
 	switch results.Len() {
@@ -430,6 +450,9 @@ func (st *State) applyContract(fr *Frame, in ssa.CallInstruction, ct *Contract, 
 	for _, g := range ct.GhostSet {
 		v, _ := st.elab(env, g.E)
 		st.ghostSet(g.Label, nil, st.scalar(v))
+	}
+	if probe {
+		st.e.addObligation(st, u, "cover", fmt.Sprintf("after-%s-%d", ct.Func, u.invCover[probeKey]), site, TFalse, u.c.Props, "call", true)
 	}
 	k(st, res)
 }
